@@ -166,7 +166,7 @@ def _universe(ctx: Ctx):
     e2.append(Obj(cf, name="h", args=(fu,), dtype=None, supporting_engine_types=(sql_engine,)))
     e2.append(Obj(cf, name="h", args=(fu,), dtype=None, supporting_engine_types=(sql_engine, it_engine)))
     seq = ctx.cls(C, "ColumnExpressionSequence")
-    rng = Obj(ctx.cls(C, "ColumnRangeLiteral"), value=("range", 0, 3, 1), dtype=None)
+    rng = Obj(ctx.cls(C, "ColumnRangeLiteral"), value=range(0, 3, 1), dtype=None)
     containers = [rng, Obj(seq, items=(lit, fr_const), dtype=None), Obj(seq, items=(fr_const,), dtype=None), Obj(seq, items=(), dtype=None), Obj(seq, items=(lit,), dtype=None), Obj(seq, items=(ra, lit), dtype=None), Obj(seq, items=(lit, fr), dtype=None), Obj(seq, items=(fu, rb), dtype=None), Obj(seq, items=(fr, fu), dtype=None)]
     T = Obj(ctx.cls(P, "PredicateLiteral"), value=True)
     pr = Obj(ctx.cls(P, "PredicateReference"), tag="p")
@@ -388,6 +388,46 @@ def r13_6_requirements(ctx: Ctx, rule: str = "R13.6") -> None:
         "and on Calculation/Selection/Sort operations over them, for the iteration and the SQL engine",
         expected_min=24,
     )
+    # what is_supported_by may know about the engine: its type, nothing else (not what its function registry happens to resolve)
+    m = ctx.m
+    seen_cls = set()
+    for c in list(ctx.k.concrete(ctx.k.column_exprs)) + list(ctx.k.concrete(ctx.k.predicates)) + list(ctx.k.concrete(ctx.k.containers)) + [ctx.op_class(n) for n in ("Calculation", "Selection", "Sort")]:
+        f = m.method(c, "is_supported_by")
+        if f is None or f.key in seen_cls:
+            continue
+        seen_cls.add(f.key)
+        ps = [q for q in f.params if q != "self"]
+        if not ps:
+            continue
+        eng = ps[0]
+        parents: dict[int, ast.AST] = {}
+        for n in ast.walk(f.node):
+            for ch in ast.iter_child_nodes(n):
+                parents[id(ch)] = n
+        bad_use = None
+        for n in ast.walk(f.node):
+            if not (isinstance(n, ast.Name) and n.id == eng and isinstance(n.ctx, ast.Load)):
+                continue
+            par = parents.get(id(n))
+            ok = False
+            if isinstance(par, ast.Call) and n in par.args:
+                fn = par.func
+                if isinstance(fn, ast.Name) and fn.id == "isinstance" and par.args and par.args[0] is n:
+                    ok = True
+                elif isinstance(fn, ast.Attribute) and fn.attr == "is_supported_by":
+                    ok = True
+                elif isinstance(fn, ast.Name) and fn.id == "type" and len(par.args) == 1:
+                    gp = parents.get(id(par))
+                    ok = isinstance(gp, ast.Call) and isinstance(gp.func, ast.Name) and gp.func.id == "issubclass" and gp.args and gp.args[0] is par
+            if not ok:
+                bad_use = n
+                break
+        inst = f"{c.name}.is_supported_by:engine-type-only"
+        if bad_use is None:
+            run.ok(rule, inst)
+        else:
+            par = parents.get(id(bad_use))
+            run.fail(rule, inst, f"{c.name}.is_supported_by uses the engine in `{src(par)[:70] if par is not None else eng}`: support is decided by `isinstance(engine, supporting_engine_types)` and by the children alone - not by what the engine's registry resolves, nor by comparing classes the other way round", fi=f, node=bad_use)
     for inst, ok, msg, fi, extra in decided(ctx):
         if ok:
             run.ok(rule, inst, extra)
